@@ -1139,6 +1139,21 @@ class _Identifiers:
 
     def visitControlLine(self, node):
         self.check_declared(node)
+        if (
+            self.compiler.enable_loop
+            and node.keyword == "for"
+            and not node.isend
+        ):
+            # mangle_mako_loop() gives this loop a loop context when "loop"
+            # is referenced anywhere inside of it, including within a
+            # nested def or the body of a call; the loop stack then has
+            # to be set up in this scope, and seen from those
+            loop_variable = LoopVariable()
+            node.accept_visitor(loop_variable)
+            if loop_variable.detected and "loop" not in self.declared.union(
+                self.locally_declared
+            ):
+                self.undeclared.add("loop")
 
     def visitCode(self, node):
         if not node.ismodule:
